@@ -216,6 +216,8 @@ def r17_3(ctx: Ctx):
                         v = e.d['value']
                         src = C.call_event_of_result(p, v)
                         pinned = dtype_pinned(ctx, src) if src is not None else None
+                        if src is None and isinstance(v, RF) and v.single_atom() is None:
+                            pinned = 'arith'      # numpy arithmetic allocates its result; float by promotion
                         defs[a].append((q, e, src, pinned))
                         if a not in first:
                             first[a] = 'def'
@@ -265,7 +267,9 @@ def r17_3(ctx: Ctx):
         ctx.floor(rid, f'definitions of scratch attribute {a}', len(defs[a]), 3)
         for (q, e, src, pinned) in defs[a]:
             name = src.d.get('callee') if src is not None else None
-            if pinned is None:
+            if pinned == 'arith':
+                ctx.ok(rid, e.func.short, f'{a} := result of array arithmetic (a new array)', e.loc())
+            elif pinned is None:
                 ctx.fail(rid, e.func.short, e.loc(), f'{a} is rebound to {C.fmt(e.d["value"])}, not to a freshly '
                                                      f'allocated array: the scratch aliases something else',
                          key=ctx.key_for(rid, e.func, e.node))
